@@ -10,7 +10,10 @@ RULE = ("keys: every exported key constructor and generic helper on ids {0,1,2,1
         "compared after every operation; frame: 2..101 consumers created by MsgCreateConsumer, the interesting ones (0,1,2,10,11,100) "
         "in random phases with random decorations, one per-consumer operation (update, opt-in/out, key assignment, commission, "
         "remove, launch / failing launch / deletion / infraction-parameter switch in BeginBlock, packet timeout, error ack, create) "
-        "incl. wrong-phase and unauthorized ones; lint: go/ast inventory of all store iterations of the keeper. "
+        "incl. wrong-phase and unauthorized ones; differential stream: the same setup on two environments, with and without the "
+        "operation on c1 (lexicographically early ids 1/10 preferred), then the same continuation (reward allocations in "
+        "governance / per-consumer / foreign denoms with a funded pool, BeginBlock, epoch EndBlock, time advance past the unbonding "
+        "period, second allocation round) and comparison of every other consumer's keys and getter-level state; lint: go/ast inventory of all store iterations of the keeper. "
         "non-trivial = the operation changed at least one key (frame), a prefix/range deletion removed a key while a sibling "
         "consumer kept one in the same space (store); distinct = distinct (operation, consumer, phases / key spaces)")
 ASSUMPTIONS = [
@@ -18,6 +21,9 @@ ASSUMPTIONS = [
     "keys of space ConsumerAddrsToPruneV2 carry a well-formed timestamp (only AppendConsumerAddrsToPrune writes them): "
     "ConsumeConsumerAddrsToPrune skips keys whose suffix does not parse, the model deletes the whole range (a superset)",
     "the calendar conversion of time.Time into year..nanosecond is Go's (input of the model's FormatTimeBytes)",
+    "differential stream: provider-wide keys (slash meter, vsc ids, last provider validator set, governance denoms) and the "
+    "fake World (balances, community pool, validator rewards) are not compared; the rewards pool is funded so that a shortage of "
+    "the shared pool never occurs",
     "frame part: BeginBlock operations are scheduled so that only the event of c1 is due; the epoch EndBlock is not a per-consumer "
     "operation and is only used in the setup",
 ]
@@ -240,7 +246,7 @@ OPS_BY_PHASE = {0: [1, 1, 2, 3, 4, 5, 13], 1: [1, 1, 2, 3, 4, 5, 7, 7, 7, 13], 2
 
 
 def gen_frame(rng, tier):
-    total = 220 if tier == "quick" else 5000
+    total = 150 if tier == "quick" else 5000
     for _ in range(total):
         nvals = 4
         r = rng.random()
@@ -303,12 +309,67 @@ def gen_frame(rng, tier):
                "op": op if op is not None else gen_op(rng, kind, nvals, con)}
 
 
+DIFF_OPS = {0: [1, 1, 2, 3, 4, 5], 1: [1, 1, 2, 3, 4, 5, 7, 7], 2: [1, 1, 1, 2, 3, 4, 5, 6, 6], 3: [1, 1, 1, 2, 3, 4, 5, 6, 10, 11],
+            4: [1, 3], 5: [1, 3]}
+
+
+def gen_diff(rng, tier):
+    """Differential non-interference: the same history with and without the operation on c1, then a common
+    continuation (reward distribution, epoch EndBlock, time advance past the unbonding period)."""
+    for _ in range(90 if tier == "quick" else 3000):
+        nvals = 4
+        r = rng.random()
+        n = 101 if r < 0.15 else rng.choice([3, 11, 11, 12])
+        interesting = [c for c in (0, 1, 2, 10, 11, 100) if c < n]
+        if rng.random() < 0.1:
+            # create: the new id is issued while its textual relatives exist
+            n = rng.choice([2, 10, 11, 100]) if r >= 0.15 else 100
+            interesting = [c for c in (0, 1, 2, 10, 11) if c < n]
+            cons = [gen_consumer(rng, c, nvals, rng.choice([2, 3, 3, 1, 4])) for c in interesting]
+            yield {"part": "frame", "diff": 1, "n": n, "nvals": nvals, "cons": cons, "c1": n, "op": gen_op(rng, 12, nvals, None)}
+            continue
+        # c1 is mostly the consumer that the lexicographic iterations ("1" < "10" < "100" < "11" < "2") visit first
+        c1 = rng.choice([c for c in (1, 1, 1, 10, 10, 0, 2, 11, 100) if c in interesting])
+        cons = []
+        for c in interesting:
+            ph = rng.choice([2, 3, 3, 2, 3, 1, 4, 0, 5])
+            if c == c1 and rng.random() < 0.7:
+                ph = rng.choice([2, 3, 3, 1])
+            con = gen_consumer(rng, c, nvals, ph)
+            con["denoms"] = rng.random() < 0.7
+            cons.append(con)
+        con = [c for c in cons if c["id"] == c1][0]
+        kind = rng.choice(DIFF_OPS[con["phase"]])
+        if kind in (10, 11):
+            con["chan"] = True
+        if kind == 7:
+            for c in cons:
+                c["qinfra"] = False
+                if c["phase"] == 4 and c["id"] != c1:
+                    c["phase"] = rng.choice([2, 3])
+        op = gen_op(rng, kind, nvals, con)
+        if kind == 1:
+            f = rng.random()
+            if f < 0.45:
+                op[9] = rng.choice([1, 2, 3])       # AllowlistedRewardDenoms: none / one / two denoms
+            elif f < 0.7:
+                op[3] = rng.choice([1, 2, 3])       # power shaping incl. the lists and a validator-set cap
+            elif f < 0.85:
+                op[8] = 1                           # infraction parameters
+        yield {"part": "frame", "diff": 1, "n": n, "nvals": nvals, "cons": cons, "c1": c1, "op": op}
+
+
+def gen_frame_all(rng, tier):
+    yield from gen_frame(rng, tier)
+    yield from gen_diff(rng, tier)
+
+
 def nontrivial_frame(case, inp, obs):
     attrs = obs[0] if obs and isinstance(obs[0], list) else None
     if not attrs:
         return None
     phases = sorted((c["id"], c["phase"]) for c in case["cons"])
-    return json.dumps([case["op"][0], case["c1"], phases, sorted({a[0] for a in attrs})])
+    return json.dumps([case.get("diff", 0), case["op"][0], case["c1"], phases, sorted({a[0] for a in attrs})])
 
 
 def project_frame(case, obs):
@@ -349,6 +410,10 @@ CLAUSES = {
     5: "store operation of one consumer changed the value under a key of another consumer",
     6: "the keeper iterates a key space with a prefix that is not an allowed form (legacy `prefix|id` or unknown)",
     7: "two key names share a prefix byte",
+    11: "after the common continuation a key of a consumer c2 != c1 differs depending on whether the operation on c1 happened",
+    12: "after the common continuation an unattributable (unknown / deprecated space) key differs between the two runs",
+    13: "after the common continuation the getter-level state of a consumer c2 != c1 depends on whether the operation on c1 happened",
+    14: "after the common continuation a time-queue / reverse-index entry differs with respect to a consumer other than c1",
 }
 
 
@@ -359,7 +424,7 @@ def describe(codes):
 def histogram(part, c):
     if part == "frame":
         con = [x for x in c["cons"] if x["id"] == c["c1"]]
-        return ["frame:op%d" % c["op"][0], "frame:n%d" % c["n"], "frame:c1=%d" % c["c1"],
+        return ["frame:diff" if c.get("diff") else "frame:local", "frame:op%d" % c["op"][0], "frame:n%d" % c["n"], "frame:c1=%d" % c["c1"],
                 "frame:phase%s" % (con[0]["phase"] if con else "new")]
     if c.get("part") == "store":
         return ["store:kind%d" % o[0] for o in c["ops"]]
@@ -380,6 +445,6 @@ def nontrivial_fn(case, inp, obs):
 
 PARTS = [
     Part("keys", "c13", "storekeys", gen_fn, nontrivial=nontrivial_fn, describe=describe),
-    Part("frame", "c13", "storekeys", gen_frame, project=project_frame, nontrivial=nontrivial_frame, describe=describe),
+    Part("frame", "c13", "storekeys", gen_frame_all, project=project_frame, nontrivial=nontrivial_frame, describe=describe),
     Part("lint", "c13", "storekeys", gen_lint, nontrivial=lambda c, i, o: None, describe=describe),
 ]
